@@ -10,7 +10,7 @@ import (
 )
 
 // mtimes used by the harnesses (ns); arithmetic on them stays concrete
-var mtimeChoices = []int64{1500000000123, 77000000001}
+var mtimeChoices = []int64{1500000000123, 0} // a sub-second value and the epoch itself (a zero field is absent on the wire)
 
 func chooseMtime(name string) int64 { return mtimeChoices[v.Choose(name, len(mtimeChoices))] }
 
